@@ -42,6 +42,11 @@ type ptCase struct {
 	base    time.Time
 	nontriv bool
 	pendingSleep map[int64][2]interface{}
+	// scheduler control: with holdNext armed, the next watcher that is about to go to sleep is parked between
+	// leaving its locked section and entering its select (inside the timer hook) until release
+	holdNext bool
+	heldGid  int64
+	heldGate chan struct{}
 }
 
 func (c *ptCase) thread(gid int64) *ptThread {
@@ -81,6 +86,9 @@ func (c *ptCase) settle() {
 		stable := true
 		for _, id := range watcherGoroutines(gs) {
 			_, asleep := c.pendingSleep[id]
+			if id == c.heldGid && asleep {
+				continue // parked by the harness just before its select
+			}
 			if !(gs[id].state == "select" && asleep) {
 				stable = false
 			}
@@ -219,7 +227,7 @@ func (c *ptCase) flush(gs map[int64]goState) {
 }
 
 func runPoolCase(ctx *Ctx, maxWorkers, idle int, script []string) {
-	c := &ptCase{ctx: ctx, mainGid: goid(), fireT: map[int]int{}, cancelled: map[int]bool{}, started: map[int]int{}, pendingSleep: map[int64][2]interface{}{},
+	c := &ptCase{ctx: ctx, mainGid: goid(), fireT: map[int]int{}, cancelled: map[int]bool{}, started: map[int]int{}, pendingSleep: map[int64][2]interface{}{}, heldGate: make(chan struct{}),
 		base: time.Date(2030, 1, 1, 0, 0, 0, 0, time.UTC)}
 	om, oi := timeout.VerifSetPool(maxWorkers, time.Duration(idle)*time.Millisecond)
 	timeout.VerifSetClock(func() time.Time {
@@ -237,7 +245,14 @@ func runPoolCase(ctx *Ctx, maxWorkers, idle int, script []string) {
 			t.timer, t.sleeping, t.deadline = tm, true, dl
 		}
 		c.recs = append(c.recs, ptRec{gid: g, kind: "sleep", a: dl})
+		var gate chan struct{}
+		if c.holdNext {
+			c.holdNext, c.heldGid, gate = false, g, c.heldGate
+		}
 		c.mu.Unlock()
+		if gate != nil {
+			<-gate
+		}
 		return tm
 	}
 	timeout.VerifSectionHook = func(kind, site string, obj any) {
@@ -270,10 +285,24 @@ func runPoolCase(ctx *Ctx, maxWorkers, idle int, script []string) {
 			c.mu.Unlock()
 		}
 	}
+	release := func() {
+		c.mu.Lock()
+		g, gate := c.heldGid, c.heldGate
+		c.holdNext = false
+		if g != 0 {
+			c.heldGid, c.heldGate = 0, make(chan struct{})
+		}
+		c.mu.Unlock()
+		if g != 0 {
+			c.nontriv = true
+			close(gate)
+			c.settle()
+		}
+	}
 	sleepers := func() []*ptThread {
 		var r []*ptThread
 		for _, t := range c.threads {
-			if !t.exited && t.sleeping {
+			if !t.exited && t.sleeping && t.gid != c.heldGid {
 				r = append(r, t)
 			}
 		}
@@ -286,6 +315,14 @@ func runPoolCase(ctx *Ctx, maxWorkers, idle int, script []string) {
 			fmt.Sscan(f[1], &x)
 		}
 		switch f[0] {
+		case "holdsleep":
+			c.mu.Lock()
+			if c.heldGid == 0 {
+				c.holdNext = true
+			}
+			c.mu.Unlock()
+		case "release":
+			release()
 		case "add":
 			id := len(c.futs)
 			c.mu.Lock()
@@ -364,6 +401,7 @@ func runPoolCase(ctx *Ctx, maxWorkers, idle int, script []string) {
 		}
 		do(l)
 	}
+	release()
 	// fair completion: advance time past every fire time and keep firing eligible timers; then every live
 	// future must have started (C13) …
 	if !c.failed {
@@ -413,6 +451,7 @@ func runPoolCase(ctx *Ctx, maxWorkers, idle int, script []string) {
 		ctx.R.Nontrivial("an arrival preceded the current head / burst")
 	}
 	// make sure nothing leaks into the next case
+	release()
 	timeout.VerifDrain()
 	for i := 0; i < 50 && timeout.VerifWatchers() > 0; i++ {
 		c.mu.Lock()
@@ -434,6 +473,15 @@ func runPoolCase(ctx *Ctx, maxWorkers, idle int, script []string) {
 
 func runPool(ctx *Ctx) {
 	r := ctx.Rnd
+	// the pool model assumes what init() sets up: a wake channel that can hold one token per watcher
+	if mw, cp, _ := timeout.VerifInitConfig(); true {
+		ctx.R.Case(mw, cp)
+		if cp != mw || mw < 1 {
+			ctx.R.Quiet("mon C13-init-config", fmt.Sprintf("init() gives the wake channel capacity %d for maxWorkers %d (the dispatcher's tokens are lost unless a watcher is parked in its select at that instant)", cp, mw))
+		} else {
+			ctx.R.Quiet("mon C13-init-config", "ok")
+		}
+	}
 	n := 150
 	if ctx.Thorough {
 		n = 3000
@@ -462,8 +510,13 @@ func runPool(ctx *Ctx) {
 				}
 			case x < 75:
 				script = append(script, fmt.Sprintf("tick %d", []int{1, 2, 5, 11, idle + 1, 60}[r.Intn(6)]))
-			default:
+			case x < 90:
 				script = append(script, fmt.Sprintf("fire %d", r.Intn(4)))
+			case x < 96:
+				// the next watcher about to sleep is stopped between its section and its select
+				script = append(script, "holdsleep")
+			default:
+				script = append(script, "release")
 			}
 		}
 		if maxWorkers >= 2 && r.Chance(1, 6) {
@@ -471,6 +524,14 @@ func runPool(ctx *Ctx) {
 			script = []string{"add 0", "add 1", "tick 2", "fire 0", "add 1", "tick 1", "fire 0", "fire 0", "tick 1"}
 			if r.Chance(1, 2) {
 				script = append(script, "add 3", "tick 3", "fire 0", "fire 1")
+			}
+		}
+		if r.Chance(1, 6) {
+			// directed: a Call arrives while the only watcher is between its locked section and its select —
+			// the wake token must wait for it in the channel
+			script = []string{"add 50", "holdsleep", "add 500", fmt.Sprintf("add %d", []int{1, 3, 10}[r.Intn(3)]), "release", "tick 2"}
+			if r.Chance(1, 2) {
+				script = append(script, "fire 0", "tick 12", "fire 0")
 			}
 		}
 		runPoolCase(ctx, maxWorkers, idle, script)
